@@ -577,6 +577,44 @@ class SimDisk(object):
             return f
         return None
 
+    def _vanish_at_stat(self, path):
+        """The entry was listed and is gone by the time it is stat()ed (deleted by someone else in between): the file, or
+        the directory with everything in it, is really removed, and this stat fails with ENOENT.  The store root and the
+        directories directly under it (type directories) stay: only entries are deleted."""
+        rel = self.rel(path)
+        o = self._orig
+        try:
+            real = o['lstat'](path)
+        except OSError:
+            real = None
+        if rel.count('/') < 2 or real is None:
+            return            # not an entry of a type directory (or already absent): this stat proceeds normally, the fault stays armed
+        tag = 'VANISH@stat'
+        self.fired[tag] += 1
+        self.fired_in_op.append(tag)
+        self.armed = None
+        self.vanished.append(rel)
+        for k in [k for k in self.files if k == rel or k.startswith(rel + '/')]:
+            self.files.pop(k, None)
+        import stat as _stat
+        was_installed = self.installed
+        try:
+            if _stat.S_ISDIR(real.st_mode):
+                # (rmtree goes through os.*: take the wrappers away for the moment so that nothing of this is counted or faulted)
+                if was_installed:
+                    self.uninstall()
+                try:
+                    shutil.rmtree(os.fspath(path), ignore_errors=True)
+                finally:
+                    if was_installed:
+                        self.install()
+            else:
+                o['remove'](path)
+        except OSError:
+            pass
+        self.touch(path, itself=False)
+        raise FileNotFoundError(errno.ENOENT, os.strerror(errno.ENOENT) + ' [entry vanished, injected]', os.fspath(path))
+
     def _raise(self, f, call, path):
         tag = '%s@%s' % (f['kind'], call)
         self.fired[tag] += 1
@@ -648,7 +686,9 @@ class SimDisk(object):
         def stat(path, *a, **kw):
             if disk.under(path):
                 f = disk._hit('stat')
-                if f:
+                if f and f['kind'] == 'VANISH':
+                    disk._vanish_at_stat(path)
+                elif f:
                     disk._raise(f, 'stat', path)
                 return disk.fake_times(path, o['stat'](path, *a, **kw))
             return o['stat'](path, *a, **kw)
